@@ -7,6 +7,9 @@ import (
 	"io"
 	"math/rand"
 	"net"
+	"strconv"
+	"strings"
+	"sync"
 	"sync/atomic"
 	"time"
 
@@ -17,74 +20,99 @@ import (
 	"kvharness/internal/gen"
 )
 
-// Transport round trips against a broker that accepts the connection and never answers (or cannot be reached):
-// the caller's context ends while the round trip is blocked.  Tokens: rb/<c>/rt  cx/<c>  rr/<c>/<ctx|err|ok>
-// bo/<n> bc/<n>  lk/<n> oc/<n>; op `tclose <cfg> …`, summary `pending=<ids> leak=<n> conns=<n>`.
-func transportScenario(kind int, r *rand.Rand) (string, string) {
+// Transport round trips whose context ends while they are blocked, and the life of the pooled connections around
+// CloseIdleConnections.  Two lines per scenario:
+//
+//	tclose k=<kind> <tokens>   external observation: rb/<c>/rt  cx/<c>  rr/<c>/<ctx|err|ok>  bo/<n> bc/<n>  fq  ci (CloseIdleConnections)
+//	                           rl (the held answer is released)  lk/<n> oc/<n> (census after the scenario's deadlines elapsed)
+//	ttrace k=<kind> <events>   the T.* hook events of transport.go in recording order (N<c>:<g> new, G<c> grab, R<c> recv,
+//	                           D<c>:<ok|keep|err> done, L<c>:<0|1> release refused/accepted, M<c> idle timer, C<g> closeIdle, X<c> exit),
+//	                           replayed deterministically through Model/TransportConnC17.lean by the oracle
+//
+// Families (DialTimeout 300 ms, IdleTimeout 40 ms so that every deadline of the scenario elapses before the census):
+//
+//	0 silent broker (ApiVersions never answered), cancel      1 unreachable (dial blocks until its context ends), cancel
+//	2, 3 the same with a context deadline instead of cancel
+//	4 ready pool, Fetch answer held: cancel (no deadline) → CloseIdleConnections → answer released (request completes
+//	  on a connection whose group is already closed: release refused ⇒ the connection must exit)
+//	5 ready pool, Fetch never answered, context deadline: the connection fails at the deadline
+//	6 ready pool, Fetch answer held: cancel → answer released → connection idle → idle timer → CloseIdleConnections
+//	7 ready pool, Fetch answered normally → CloseIdleConnections while idle
+//	8 ready pool, two round trips, one held; CloseIdleConnections while the other connection is idle; release
+func transportScenario(kind int, r *rand.Rand) (lines [][2]string) {
 	base := libGoroutines()
 	rec := &recorder{}
 	var open int32
 	var nconn int32
-	hangBroker := &Broker{FetchMax: 2, Topic: "t", OnFetch: func(q FetchReq) FetchResp {
+	release := make(chan struct{})
+	var relOnce sync.Once
+	doRelease := func() {
+		relOnce.Do(func() {
+			rec.add("rl")
+			close(release)
+		})
+	}
+	held := make(chan struct{}, 16)
+	brk := &Broker{FetchMax: 2, Topic: "t", OnFetch: func(q FetchReq) FetchResp {
 		rec.add("fq")
-		return FetchResp{Hang: true}
+		switch kind {
+		case 5:
+			return FetchResp{Hang: true}
+		case 7:
+			return FetchResp{Hwm: 0, Cut: -1}
+		}
+		if kind == 8 && q.Offset == 1 { // the second caller's request is answered at once
+			return FetchResp{Hwm: 0, Cut: -1}
+		}
+		held <- struct{}{}
+		<-release
+		return FetchResp{Hwm: 0, Cut: -1}
 	}}
+	kafka.VerifStart()
 	tr := &kafka.Transport{
-		DialTimeout: time.Second,
-		IdleTimeout: 50 * time.Millisecond,
+		DialTimeout: 300 * time.Millisecond,
+		IdleTimeout: 40 * time.Millisecond,
+		MetadataTTL: 10 * time.Second,
 		Dial: func(ctx context.Context, network, addr string) (net.Conn, error) {
-			if kind%2 == 1 {
-				// unreachable: the dial itself blocks until its context ends
-				<-ctx.Done()
+			if kind == 1 || kind == 3 {
+				<-ctx.Done() // unreachable: the dial itself blocks until its context ends
 				return nil, ctx.Err()
 			}
-			if kind >= 4 {
-				// a broker that answers ApiVersions and Metadata (the pool becomes ready) and then never answers the Fetch
-				c, _ := hangBroker.Dial()
-				id := int(atomic.AddInt32(&nconn, 1))
-				atomic.AddInt32(&open, 1)
-				rec.add("bo/%d", id)
-				return &countedConn{Conn: c, id: id, sc: &rscenario{rec: rec, open: 0}, onClose: func() { atomic.AddInt32(&open, -1) }}, nil
-			}
-			cli, srv := net.Pipe()
 			id := int(atomic.AddInt32(&nconn, 1))
 			atomic.AddInt32(&open, 1)
 			rec.add("bo/%d", id)
-			go io.Copy(io.Discard, srv) // silent broker
-			sc := &rscenario{rec: rec}
-			cc := &countedConn{Conn: cli, id: id, sc: sc}
-			go func() { // mirror the scenario-local counter
-				for {
-					time.Sleep(time.Millisecond)
-					if atomic.LoadInt32(&sc.open) < 0 {
-						atomic.AddInt32(&open, -1)
-						srv.Close()
-						return
-					}
-				}
-			}()
-			return cc, nil
+			var c net.Conn
+			if kind >= 4 {
+				c, _ = brk.Dial()
+			} else {
+				cli, srv := net.Pipe()
+				go func() { io.Copy(io.Discard, srv); srv.Close() }() // silent broker
+				c = cli
+			}
+			return &countedConn{Conn: c, id: id, sc: &rscenario{rec: rec}, onClose: func() { atomic.AddInt32(&open, -1) }}, nil
 		},
 	}
-	ncalls := 1 + r.Intn(3)
-	var req kafka.Request = &meta.Request{TopicNames: []string{"t"}}
-	if kind >= 4 {
-		req = &fetch.Request{ReplicaID: -1, MaxWaitTime: 100, MinBytes: 1, Topics: []fetch.RequestTopic{{Topic: "t",
-			Partitions: []fetch.RequestPartition{{Partition: 0, FetchOffset: 0, PartitionMaxBytes: 1 << 20}}}}}
+	ncalls := 1 + r.Intn(2)
+	if kind == 8 {
+		ncalls = 2
 	}
-	type res struct{ c int }
 	done := make([]chan struct{}, ncalls)
 	cancels := make([]context.CancelFunc, ncalls)
 	for i := 0; i < ncalls; i++ {
 		c := i + 1
 		ctx, cancel := context.WithCancel(context.Background())
-		if kind == 2 || kind == 3 {
-			ctx, cancel = context.WithTimeout(context.Background(), time.Duration(5+r.Intn(20))*time.Millisecond)
+		if kind == 2 || kind == 3 || kind == 5 {
+			ctx, cancel = context.WithTimeout(context.Background(), time.Duration(20+r.Intn(30))*time.Millisecond)
 		}
 		cancels[i] = cancel
 		done[i] = make(chan struct{})
+		var req kafka.Request = &meta.Request{TopicNames: []string{"t"}}
+		if kind >= 4 {
+			req = &fetch.Request{ReplicaID: -1, MaxWaitTime: 100, MinBytes: 1, Topics: []fetch.RequestTopic{{Topic: "t",
+				Partitions: []fetch.RequestPartition{{Partition: 0, FetchOffset: int64(i), PartitionMaxBytes: 1 << 20}}}}}
+		}
 		rec.add("rb/%d/rt", c)
-		if kind == 2 || kind == 3 {
+		if kind == 2 || kind == 3 || kind == 5 {
 			rec.add("cx/%d", c) // the deadline is armed: the cancellation is scheduled
 		}
 		go func(c int, ctx context.Context, d chan struct{}) {
@@ -97,19 +125,68 @@ func transportScenario(kind int, r *rand.Rand) (string, string) {
 				cl = "ctx"
 			default:
 				cl = "err"
+				var ne net.Error
+				if errors.As(err, &ne) && ne.Timeout() {
+					cl = "tmo" // the connection's own deadline (set from the context's) fired: an i/o timeout, not the context's error
+				}
 			}
 			rec.add("rr/%d/%s", c, cl)
 		}(c, ctx, done[i])
 	}
-	time.Sleep(time.Duration(2+r.Intn(10)) * time.Millisecond)
-	for i := 0; i < ncalls; i++ {
-		if kind < 2 || kind >= 4 {
-			if kind >= 4 {
-				time.Sleep(30 * time.Millisecond)
+	waitHeld := func(n int) {
+		for i := 0; i < n; i++ {
+			select {
+			case <-held:
+			case <-time.After(watchdog()):
+				return
 			}
-			rec.add("cx/%d", i+1)
-			cancels[i]()
 		}
+	}
+	cancelAll := func() {
+		for i := 0; i < ncalls; i++ {
+			select {
+			case <-done[i]:
+			default:
+				rec.add("cx/%d", i+1)
+				cancels[i]()
+			}
+		}
+	}
+	closeIdle := func() {
+		rec.add("ci")
+		tr.CloseIdleConnections()
+	}
+	switch kind {
+	case 0, 1:
+		time.Sleep(time.Duration(2+r.Intn(10)) * time.Millisecond)
+		cancelAll()
+	case 2, 3, 5, 7:
+		// nothing to steer: deadlines or normal answers
+	case 4:
+		waitHeld(ncalls)
+		cancelAll()
+		for i := range done {
+			<-waitOr(done[i])
+		}
+		closeIdle()
+		time.Sleep(time.Duration(r.Intn(5)) * time.Millisecond)
+		doRelease()
+	case 6:
+		waitHeld(ncalls)
+		cancelAll()
+		for i := range done {
+			<-waitOr(done[i])
+		}
+		doRelease()
+		time.Sleep(time.Duration(r.Intn(80)) * time.Millisecond) // sometimes shorter, sometimes longer than IdleTimeout
+	case 8:
+		waitHeld(1)
+		<-waitOr(done[1])
+		closeIdle() // refused: the callers still hold the pool? — CloseIdleConnections drops its own reference only
+		rec.add("cx/1")
+		cancels[0]()
+		<-waitOr(done[0])
+		doRelease()
 	}
 	pend := "-"
 	for i := 0; i < ncalls; i++ {
@@ -122,34 +199,102 @@ func transportScenario(kind int, r *rand.Rand) (string, string) {
 				pend += ","
 			}
 			pend += fmt.Sprint(i + 1)
+			noteStuck()
 		}
 		cancels[i]()
 	}
-	tr.CloseIdleConnections()
-	if kind >= 4 {
-		// the connections carrying the abandoned requests stay with the Transport until the broker answers or the
-		// request deadline passes: no census (the property speaks of Writer/Reader/ConsumerGroup resources only)
-		return fmt.Sprintf("tclose k=%d %s", kind, rec.String()), fmt.Sprintf("pending=%s", pend)
-	}
-	n := settle(base, 8*time.Second)
+	doRelease()
+	closeIdle()
+	// census after the scenario's deadlines (DialTimeout 300 ms, IdleTimeout 40 ms, context deadlines ≤ 50 ms) elapsed
+	n := settle(base, 1500*time.Millisecond)
 	rec.add("lk/%d", n)
-	// no connection census: a Transport keeps the connection of an abandoned dial / request until its own
-	// deadline; the property speaks of the connections of a Reader or ConsumerGroup only
-	return fmt.Sprintf("tclose k=%d %s", kind, rec.String()), fmt.Sprintf("pending=%s", pend)
+	oc := int(atomic.LoadInt32(&open))
+	for i := 0; i < 750 && oc != 0; i++ {
+		time.Sleep(2 * time.Millisecond)
+		oc = int(atomic.LoadInt32(&open))
+	}
+	rec.add("oc/%d", oc)
+	evs := kafka.VerifStop()
+	lines = append(lines, [2]string{fmt.Sprintf("tclose k=%d %s", kind, rec.String()), fmt.Sprintf("pending=%s leak=%d conns=%d", pend, n, oc)})
+
+	// hook trace of the connection life cycles
+	known := map[string]bool{}
+	groupOf := map[string]int{}
+	gid := func(a string) int {
+		if _, ok := groupOf[a]; !ok {
+			groupOf[a] = len(groupOf) + 1
+		}
+		return groupOf[a]
+	}
+	cid := func(a string) int {
+		v, _ := strconv.Atoi(strings.TrimPrefix(a, "#"))
+		return v
+	}
+	var es []string
+	exited := map[string]bool{}
+	for _, e := range evs {
+		if !strings.HasPrefix(e.Kind, "T.") {
+			continue
+		}
+		if e.Kind != "T.New" && e.Kind != "T.CloseIdle" && !known[e.Args[0]] {
+			continue // the run loop of an earlier scenario winding down
+		}
+		switch e.Kind {
+		case "T.New":
+			known[e.Args[0]] = true
+			es = append(es, fmt.Sprintf("N%d:%d", cid(e.Args[0]), gid(e.Args[1])))
+		case "T.Grab":
+			es = append(es, fmt.Sprintf("G%d", cid(e.Args[0])))
+		case "T.Recv":
+			es = append(es, fmt.Sprintf("R%d", cid(e.Args[0])))
+		case "T.Done":
+			o := "err"
+			if e.Args[1] == "true" {
+				o = "ok"
+			} else if e.Args[2] == "true" {
+				o = "keep"
+			}
+			es = append(es, fmt.Sprintf("D%d:%s", cid(e.Args[0]), o))
+		case "T.Release":
+			a := 0
+			if e.Args[1] == "true" {
+				a = 1
+			}
+			es = append(es, fmt.Sprintf("L%d:%d", cid(e.Args[0]), a))
+		case "T.Exit":
+			exited[e.Args[0]] = true
+			es = append(es, fmt.Sprintf("X%d", cid(e.Args[0])))
+		case "T.Remove":
+			es = append(es, fmt.Sprintf("M%d", cid(e.Args[0])))
+		case "T.CloseIdle":
+			es = append(es, fmt.Sprintf("C%d", gid(e.Args[0])))
+		}
+	}
+	live := len(known) - len(exited)
+	tr2 := "-"
+	if len(es) > 0 {
+		tr2 = strings.Join(es, ";")
+	}
+	lines = append(lines, [2]string{fmt.Sprintf("ttrace k=%d %s", kind, tr2), fmt.Sprintf("live=%d", live)})
+	return
 }
 
 func transportPart(seed int64) {
 	reps := 2
 	if gen.Thorough() {
-		reps = 10
+		reps = 8
 	}
 	n := 0
 	for rep := 0; rep < reps; rep++ {
-		for kind := 0; kind < 6; kind++ {
+		for kind := 0; kind < 9; kind++ {
 			n++
-			if only("tclose", n) {
-				op, impl := transportScenario(kind, scRand(seed, 3, n))
-				emitSc(n, op, impl)
+			if tooManyStuck() {
+				return
+			}
+			if only("tclose", n) || only("ttrace", n) {
+				for _, l := range transportScenario(kind, scRand(seed, 3, n)) {
+					emitSc(n, l[0], l[1])
+				}
 			}
 		}
 	}
